@@ -18,7 +18,8 @@ unchanged.  Strict means:
 * `set-logic` exactly once and before anything but set-option/set-info; `:produce-models` only before set-logic;
 * nothing after `exit`.
 
-`check-sat` / `get-value` decide by enumeration: Bool, bit-vectors of width <= 4, Int restricted to [-R, R], every
+`check-sat` / `get-value` decide by enumeration: Bool, bit-vectors of width <= 4, Int restricted to [-R, R], Real restricted
+to the six rationals `REALS` (exact arithmetic; printed `(/ 1 3)` or `(/ 1.0 3.0)`, `(- (/ 22 7))`, `(- 1.0)`), every
 declared-sort instance has exactly K elements (`@<sort>!k` as values), `(Array I E)` over these with select / store
 (all functions from the index domain to the element domain, at most 4096 of them).  A live assertion that mentions a symbol whose
 name starts with `UNKNOWN` makes `check-sat` answer `unknown`.
@@ -28,6 +29,7 @@ No pysmt import: own reader and own evaluator.  With --log every command and its
 """
 import re
 import sys
+from fractions import Fraction
 
 TOKEN = re.compile(r'\s+|;[^\n]*|(\(|\)|\|[^|]*\||"(?:[^"]|"")*"|[^\s()|";]+)')
 
@@ -85,6 +87,10 @@ def unquote(name):
     return name
 
 
+# the values a Real symbol ranges over: exact rationals, some of them not dyadic, one with a big numerator
+REALS = (Fraction(0), Fraction(1, 3), Fraction(-1), Fraction(22, 7), Fraction(10 ** 20 + 1, 3), Fraction(-22, 7))
+
+
 class Level(object):
     def __init__(self):
         self.sorts = {}     # name -> arity
@@ -103,6 +109,7 @@ class Strict(object):
         self.R = int_range
         self.K = usize
         self.lenient_pop = False
+        self.real_style = 0
 
     # ------------------------------------------------------------- scope
     def sort_arity(self, name):
@@ -119,7 +126,7 @@ class Strict(object):
 
     def parse_sort(self, s):
         """S-expression -> canonical sort: 'Bool' | 'Int' | ('BV', w) | ('U', text) | ('Array', index, element)"""
-        if s == "Bool" or s == "Int":
+        if s == "Bool" or s == "Int" or s == "Real":
             return s
         if isinstance(s, list) and len(s) == 3 and s[0] == "_" and s[1] == "BitVec" and s[2].isdigit():
             w = int(s[2])
@@ -165,6 +172,8 @@ class Strict(object):
             for i in range(1, self.R + 1):
                 d += [i, -i]
             return d
+        if sort == "Real":
+            return list(REALS)
         if sort[0] == "BV":
             return list(range(1 << sort[1]))
         if sort[0] == "Array":
@@ -181,6 +190,12 @@ class Strict(object):
             return "true" if v else "false"
         if sort == "Int":
             return str(v) if v >= 0 else "(- %d)" % -v
+        if sort == "Real":
+            # both spellings of a rational are legal value syntax; which one is used depends on --layout
+            num = (lambda n: str(n)) if self.real_style == 0 else (lambda n: "%d.0" % n)
+            a = abs(v)
+            txt = "%d.0" % a.numerator if a.denominator == 1 else "(/ %s %s)" % (num(a.numerator), num(a.denominator))
+            return txt if v >= 0 else "(- %s)" % txt
         if sort[0] == "BV":
             return "#b" + format(v, "0%db" % sort[1])
         if sort[0] == "Array":
@@ -201,6 +216,8 @@ class Strict(object):
                 return "Bool"
             if re.fullmatch(r"0|[1-9][0-9]*", t):
                 return "Int"
+            if re.fullmatch(r"(0|[1-9][0-9]*)\.[0-9]+", t):
+                return "Real"
             if re.fullmatch(r"#b[01]+", t):
                 return self._bv(len(t) - 2)
             if re.fullmatch(r"#x[0-9a-fA-F]+", t):
@@ -261,12 +278,20 @@ class Strict(object):
         if h == "ite":
             need(n == 3 and args[0] == "Bool" and args[1] == args[2])
             return args[1]
+        num = lambda s: s == "Int" or s == "Real"
         if h in ("+", "*"):
-            need(n >= 2 and all(a == "Int" for a in args))
-            return "Int"
+            need(n >= 2 and num(args[0]) and all(a == args[0] for a in args))
+            return args[0]
         if h == "-":
-            need(n >= 1 and all(a == "Int" for a in args))
-            return "Int"
+            need(n >= 1 and num(args[0]) and all(a == args[0] for a in args))
+            return args[0]
+        if h == "/":
+            # `(/ 1 3)` with integer numerals is the usual spelling of a rational constant
+            need(n == 2 and all(num(a) for a in args))
+            return "Real"
+        if h == "to_real":
+            need(args == ["Int"])
+            return "Real"
         if h in ("div", "mod"):
             need(n == 2 and all(a == "Int" for a in args))
             return "Int"
@@ -274,7 +299,7 @@ class Strict(object):
             need(args == ["Int"])
             return "Int"
         if h in ("<", "<=", ">", ">="):
-            need(n >= 2 and all(a == "Int" for a in args))
+            need(n >= 2 and num(args[0]) and all(a == args[0] for a in args))
             return "Bool"
         if h in ("bvnot", "bvneg"):
             need(n == 1 and isbv(args[0]))
@@ -317,7 +342,7 @@ class Strict(object):
             if t == "false":
                 return ("Bool", False)
             if t[0].isdigit():
-                return ("Int", int(t))
+                return ("Real", Fraction(t)) if "." in t else ("Int", int(t))
             if t.startswith("#b"):
                 return (("BV", len(t) - 2), int(t[2:], 2))
             if t.startswith("#x"):
@@ -368,14 +393,18 @@ class Strict(object):
         if h == "distinct":
             return ("Bool", len(set(v)) == len(v))
         if h == "+":
-            return ("Int", sum(v))
+            return (s0, sum(v))
         if h == "*":
             r = 1
             for x in v:
                 r *= x
-            return ("Int", r)
+            return (s0, r)
         if h == "-":
-            return ("Int", -v[0] if len(v) == 1 else v[0] - sum(v[1:]))
+            return (s0, -v[0] if len(v) == 1 else v[0] - sum(v[1:]))
+        if h == "/":
+            return ("Real", Fraction(0) if v[1] == 0 else Fraction(v[0]) / Fraction(v[1]))
+        if h == "to_real":
+            return ("Real", Fraction(v[0]))
         if h == "div" or h == "mod":
             if v[1] == 0:
                 return ("Int", 0 if h == "div" else v[0])     # one fixed interpretation of division by zero
@@ -632,6 +661,7 @@ def main(argv):
             return 2
     st = Strict(R, K)
     st.lenient_pop = lenient
+    st.real_style = layout % 2
     pending = []
     out = sys.stdout
     for line in sys.stdin:
